@@ -526,7 +526,9 @@ def main(tier):
         "fault = one edit of one key file: text level (6 edits at every byte offset of the file), body level "
         "(7 edits at every byte offset of the decoded base64 body, re-armoured), structural (line drop/dup/"
         "swap/blank at every line, 18 armour-tag rewrites, header injections, body of every other file spliced "
-        "in).  Every fault x loader classes (see META) x {right passphrase, none}.  nontrivial = distinct "
+        "in); thorough adds double faults (two body bytes <= 4 apart, both bit-7-flipped / both ff; not for the two "
+        "RSA-2048 OpenSSH files); quick takes every 4th offset beyond the first 256 of the two RSA-2048 OpenSSH "
+        "files.  Every fault x loader classes (see META) x {right passphrase, none}.  nontrivial = distinct "
         "(file, loader, edit) whose load got past the BEGIN/END armour scan of PKey._read_private_key (i.e. body "
         "decoding, decryption or key parsing decided the outcome)",
         ["bcrypt.kdf memoised and capped at %d rounds by the harness (cases above the cap are counted, not run)" % MAX_ROUNDS,
@@ -549,7 +551,9 @@ def main(tier):
     ck.merge(core.pmap(items, dispatch))
     ck.extra["files"] = {f[0]: {"bytes": n_text(f[0]), "body_bytes": n_bin(f[0]), "native": f[4],
                                 "encrypted": f[3] is not None} for f in FILES}
-    ck.extra["bound"] = "single faults; all offsets of all %d files" % len(FILES)
+    ck.extra["bound"] = ("single faults at all offsets of all %d files%s" % (
+        len(FILES), "; double faults within a 4-byte window" if tier == "thorough"
+        else " (two RSA-2048 files: every 4th offset beyond 256)"))
     return ck.finish()
 
 
